@@ -31,10 +31,11 @@ impl PeerAddresses {
                 error: DialError::Transport(errors),
                 ..
             }) => {
+                let mut changed = false;
                 for (addr, _error) in errors {
-                    self.remove(peer_id, addr);
+                    changed |= self.remove(peer_id, addr);
                 }
-                true
+                changed
             }
             _ => false,
         }
